@@ -166,6 +166,12 @@ def wf_violations(name, defn, class_names):
             top_seen[e.name] = "bitfield"
             for fn, _ in e.flags:
                 top_seen[fn] = "flag"
+    # (6') keyword names, reserved fields and flags included: one keyword must not feed two payload fields
+    kwn = _all_names(ents)
+    dups = sorted({x for x in kwn if kwn.count(x) > 1 and x.startswith("reserved")})
+    if dups:
+        v.append(("keyword-names-unique", f"keyword(s) {dups} name both a bit flag and another field: a supplied value "
+                                          f"is written to both"))
     # (6) unique exposed names in both bitfield views, (7) no collision with UBXMessage's own names
     for pbf in (1, 0):
         seen = {}
@@ -191,6 +197,19 @@ def wf_violations(name, defn, class_names):
     return v
 
 
+def _all_names(entries):
+    out = []
+    for e in entries:
+        if isinstance(e, Leaf):
+            out.append(e.name)
+        elif isinstance(e, Bitfield):
+            out.append(e.name)
+            out += [f for f, _ in e.flags]
+        else:
+            out += _all_names(e.entries)
+    return out
+
+
 def _walk_groups(entries):
     for e in entries:
         if isinstance(e, Group):
@@ -210,11 +229,13 @@ class Expected:
         self.group_order = {}  # group name -> ordered member base names
         self.total_len = None
         self.counts = {}  # every integer attribute / bit flag by name, whatever the bitfield view (group counts)
+        self.leaves = {}  # top-level field / flag name -> {"raw": undecoded value, "typ", "scale"[, "width"]}
 
 
 class FamilySpec:
     def __init__(self, base, depth, fn, group):
         self.base, self.depth, self.fn, self.group = base, depth, fn, group  # fn(idx tuple of z3/int) -> value
+        self.typ, self.scale, self.width = None, None, None
 
 
 def expected_layout(ex, defn, payload_rope, pbf, mode_key=None):
@@ -224,23 +245,21 @@ def expected_layout(ex, defn, payload_rope, pbf, mode_key=None):
 
     P = payload_rope
     seg = P.segs[0] if len(P.segs) == 1 else None
-    if seg is None or not hasattr(seg, "base"):
-        from pvc.values import Unsupported
-        raise Unsupported("oracle needs the payload as a single view")
-    base = seg.base
-    start = seg.start
+    single = seg is not None and hasattr(seg, "base")
     nP = zint(P.length())
     exp = Expected()
     ents = parse_def(defn)
 
     def view(off, size):
-        return SBytes.view(base, mk_off(start, off), size)
+        if single:
+            return SBytes.view(seg.base, mk_off(seg.start, off), size)
+        return P.slice(off, mk_off(off, size))  # constructed payloads: a concatenation of encoded fields
 
     def mk_off(a, b):
         from pvc.values import zadd
         return zadd(a, b)
 
-    def decode(leaf_typ, scale, off):
+    def decode(leaf_typ, scale, off, raw_only=False):
         T = leaf_typ
         if T == "CH":
             return None  # text: not compared
@@ -249,7 +268,7 @@ def expected_layout(ex, defn, payload_rope, pbf, mode_key=None):
         L = T[0]
         if L in INT_LETTERS:
             raw = ex.bm.int_from_bytes(b, "little", signed=(L == "I"))
-            if scale is None or scale == 1:
+            if scale is None or scale == 1 or raw_only:
                 return raw
             if isinstance(scale, int):  # integer scale factor: exact integer product
                 return mk_int(zint(raw) * scale)
@@ -275,6 +294,7 @@ def expected_layout(ex, defn, payload_rope, pbf, mode_key=None):
                 off = nP
                 continue
             val = decode(e.typ, e.scale, off)
+            exp.leaves[e.name] = {"raw": decode(e.typ, e.scale, off, raw_only=True), "typ": e.typ, "scale": e.scale}
             if e.name.startswith("_HP") and e.name[3:] in exp.top:
                 b0 = exp.top[e.name[3:]]
                 from pvc.values import SFloat as SF
@@ -295,7 +315,9 @@ def expected_layout(ex, defn, payload_rope, pbf, mode_key=None):
             bo = 0
             for fn, w in e.flags:
                 exp.counts[fn] = bits(off, e.size, bo, w)
+                exp.leaves[fn] = {"raw": exp.counts[fn], "typ": "flag", "scale": None, "width": w}
                 bo += w
+            exp.leaves[e.name] = {"raw": view(off, e.size), "typ": e.typ, "scale": None}
             if pbf:
                 bo = 0
                 for fn, w in e.flags:
@@ -342,9 +364,10 @@ def _family_specs(ex, exp, grp, goff, G, N, pbf, view, decode, bits, depth_idx):
         fo = 0
         for m in entries:
             if isinstance(m, Leaf):
-                def fn(idx, fo=fo, m=m):
-                    return decode(m.typ, m.scale, base_off_fn(idx, fo))
+                def fn(idx, fo=fo, m=m, raw_only=False):
+                    return decode(m.typ, m.scale, base_off_fn(idx, fo), raw_only)
                 exp.families[m.name] = FamilySpec(m.name, depth, fn, grp.name)
+                exp.families[m.name].typ, exp.families[m.name].scale = m.typ, m.scale
                 order.append(m.name)
                 fo += m.size
             elif isinstance(m, Bitfield):
@@ -358,9 +381,10 @@ def _family_specs(ex, exp, grp, goff, G, N, pbf, view, decode, bits, depth_idx):
                             order.append(fnm)
                         bo += w
                 else:
-                    def fn(idx, fo=fo, m=m):
+                    def fn(idx, fo=fo, m=m, raw_only=False):
                         return view(base_off_fn(idx, fo), m.size)
                     exp.families[m.name] = FamilySpec(m.name, depth, fn, grp.name)
+                    exp.families[m.name].typ, exp.families[m.name].scale = m.typ, None
                     order.append(m.name)
                 fo += m.size
             else:
